@@ -19,15 +19,17 @@ Fixpoint ravel_from (acc : Z) (shape idx : list Z) : Z :=
 Definition ravel (shape idx : list Z) : Z := ravel_from 0 shape idx.
 
 (** * 2. band layout of _write_cog *)
-Inductive layout := L2d | LBandFirst | LBandLast.
+Inductive layout := L2d | L2dT | LBandFirst | LBandLast.
 
-Definition layout_code (l : layout) : Z := match l with L2d => 0 | LBandFirst => 1 | LBandLast => 2 end.
+Definition layout_code (l : layout) : Z := match l with L2d => 0 | LBandFirst => 1 | LBandLast => 2 | L2dT => 3 end.
 
 (** [gshape] = geobox.shape; [yaxis] = position of Y when the caller knows it
     (write_cog / write_cog_layers pass the DataArray's ydim since fix 1cabe7b).
     Result: layout and (nbands, h, w) of the band-first array handed to GDAL.
 
-      if pix.ndim == 2: h, w = pix.shape; nbands = 1
+      if pix.ndim == 2:
+          if yaxis == 1: pix = pix.transpose([1, 0])      (dims (x, y), since fix 43d71f8)
+          h, w = pix.shape; nbands = 1
       elif pix.ndim == 3:
           band_last = (pix.shape[:2] == geobox.shape) if yaxis is None else (yaxis == 0)
           if band_last: pix = pix.transpose([2, 0, 1])
@@ -37,7 +39,10 @@ Definition layout_code (l : layout) : Z := match l with L2d => 0 | LBandFirst =>
       assert geobox.shape == (h, w)                                        *)
 Definition norm_layout (shape : list Z) (gshape : Z * Z) (yaxis : option Z) : res (layout * (Z * Z * Z)) :=
   match shape with
-  | [h; w] => if zz_eq gshape (h, w) then Ok (L2d, (1, h, w)) else Err (EAssert 124)
+  | [d0; d1] =>
+      let xy := match yaxis with Some ya => ya =? 1 | None => false end in
+      if xy then (if zz_eq gshape (d1, d0) then Ok (L2dT, (1, d1, d0)) else Err (EAssert 124))
+      else if zz_eq gshape (d0, d1) then Ok (L2d, (1, d0, d1)) else Err (EAssert 124)
   | [d0; d1; d2] =>
       let band_last := match yaxis with
                        | None => zz_eq (d0, d1) gshape
@@ -56,6 +61,7 @@ Definition src_index (l : layout) (dims : Z * Z * Z) (b y x : Z) : Z :=
   let '(nb, h, w) := dims in
   match l with
   | L2d => y * w + x
+  | L2dT => x * h + y
   | LBandFirst => (b * h + y) * w + x
   | LBandLast => (y * w + x) * nb + b
   end.
